@@ -98,9 +98,14 @@ def scanLCP (lcp : Array Nat) (minLen maxLen : Int) : List Callback :=
 /-- `Segments`: callbacks, or `none` for an argument panic.  `saLen` = `len(sa)`. -/
 def segments (saLen : Nat) (lcp : Array Nat) (minLen maxLen : Int) : Option (List Callback) :=
   if saLen ≠ lcp.size then none
-  else if ¬ (0 ≤ minLen ∧ minLen ≤ 2147483647) then none
-  else if ¬ (maxLen ≤ 2147483647) then none
-  else if maxLen < minLen ∨ saLen = 0 then some []
-  else some (scanLCP lcp minLen maxLen)
+  else if minLen < 0 then none
+  else if maxLen < minLen ∨ saLen = 0 ∨ minLen > 2147483647 then some []
+  else some (scanLCP lcp minLen (if maxLen > 2147483647 then 2147483647 else maxLen))
+
+/-- `Segments` as `computeEdges` calls it: there `maxLen` is an `int32` variable, so a value above
+    `MaxInt32` cannot occur in the Go code (it would need `len(Data) > MaxInt32`, where `computeEdges`
+    panics before — D18).  The model stores nothing in that unreachable case (`none`). -/
+def segments32 (saLen : Nat) (lcp : Array Nat) (minLen maxLen : Int) : Option (List Callback) :=
+  if maxLen > 2147483647 then none else segments saLen lcp minLen maxLen
 
 end LZ
